@@ -13,6 +13,7 @@ import (
 	"testing"
 
 	"github.com/ollama/ollama/server/internal/internal/names"
+	"github.com/ollama/ollama/types/model"
 	"github.com/ollama/ollama/zzverif"
 )
 
@@ -84,6 +85,21 @@ func c13ManifestCase(out *zzverif.Out, cc *c13Cache, s string) (string, bool) {
 	out.Count("manifest_accepted")
 	if why := zzverif.C13Confined(c.dir, "manifests", p, 4); why != "" {
 		out.L2("manifest-path-escapes", op, why+" path="+zzverif.Hex([]byte(p)))
+	}
+	// a path the cache would CREATE (not an existing, possibly foreign, link) must be readable by the legacy
+	// store: model.ParseNameFromFilepath gives a valid name with exactly these four parts
+	rel := strings.TrimPrefix(p, filepath.Join(c.dir, "manifests")+"/")
+	isLink := false
+	for _, l := range cc.links {
+		if l == "manifests/"+rel {
+			isLink = true
+		}
+	}
+	if !isLink {
+		out.Count("reparse_checked")
+		if n := model.ParseNameFromFilepath(rel); !n.IsValid() || n.Filepath() != rel {
+			out.L2("manifest-path-not-reparseable", "n2p "+zzverif.Hex([]byte(s)), "model.ParseNameFromFilepath rejects "+zzverif.Hex([]byte(rel)))
+		}
 	}
 	return p, true
 }
@@ -647,6 +663,23 @@ func TestVerifC13(t *testing.T) {
 		class, s := zzverif.C13Name(r)
 		out.Count("name_class_" + class)
 		c13ManifestCase(out, empty, s)
+	}
+	// valid multi-byte characters inside otherwise valid names (one code point per low byte and encoded length)
+	for low := 0; low < 256; low++ {
+		for _, base := range []int{0x100, 0x4E00, 0x1F600 - 0x1F600%256} {
+			ch := string(rune(base + low))
+			c13ManifestCase(out, empty, "h/n/"+ch+":t")
+			c13ManifestCase(out, empty, "h/n/m"+ch+":t")
+			out.Count("utf8_names")
+		}
+	}
+	if b, err := os.ReadFile(os.Getenv("VERIF_WITNESS")); err == nil {
+		for _, l := range strings.Split(string(b), "\n") {
+			if f := strings.Fields(l); len(f) == 2 && f[0] == "n2p" {
+				c13ManifestCase(out, empty, string(zzverif.Unhex(f[1])))
+				out.Count("tie_witness")
+			}
+		}
 	}
 	// caches with links on disk: case twins must resolve to the same existing file
 	scen := n / 100
